@@ -32,7 +32,7 @@ POOL = [
     "NaN", "nan", "Infinity", "-Infinity", "inf", "sNaN", "1e5", "١٢٣", "１２", "äöü", "€", " ", "\x00", "\t", "\n", "\r\n", "a\nb", "\x1b[0m", "﻿", "\ud800",
     "class", "None", "lambda", "import os", "__import__('os')", "is valid", "is_valid", "format", "_format", "VALID_LINE_DELIMITER_TEXTS", "__dict__", "__class__",
     "-1e5000", "-1e5000...", "...-1e5000", "1e5000", "...5", ":5", "5...", "1e999999999999999999", "1e-999999999999999999", "0...1e999999999999999999", "a{99999999999}", "(a{99999}){99999}", "0x" + "f" * 5000, "0x" + "f" * 4000, "1...0x" + "f" * 4000, "9" * 5000, "hex", "rot13", "base64", "zlib_codec", "unicode_escape", "idna", "punycode",
-    "'50%', red", "\"100%d\", 'x'", "'%s', '%(x)s', red", "DD.DD", "YYYYYY", "hh:hh", "%%DD", "DD%", "MMMM", "x" * 300, "a,b;c|d", "tab", "TAB", "cr lf",
+    '"red",\n   "green",\n "blue"', "1,\n   2,\n 3", "a\n\tb\n        c", "'50%', red", "\"100%d\", 'x'", "'%s', '%(x)s', red", "DD.DD", "YYYYYY", "hh:hh", "%%DD", "DD%", "MMMM", "x" * 300, "a,b;c|d", "tab", "TAB", "cr lf",
     "999999999999999", "1...999999999999999", "999999999999999...", "(?a)(?u)x", "(" * 500 + "a" + ")" * 500, "[" * 300, "kind < exit(4)", "kind < quit()", "id\\\n< 3", "\\\nid < 3",
     " /\n\x00", "/\n\x00", "id /\n\x00", "1 if", "kind < (yield)", "kind < (lambda: 1)()", "kind < [c for c in 'ab']", "kind := 3", "kind < 1; 2",
 ]
